@@ -200,6 +200,19 @@ def parse_job_graph(text, flow):
     return {ren[j]: sorted(ren.get(d, d) for d in deps) for j, deps in jobs}
 
 
+def prologue_case(text):
+    """(assigned order, body mentions) of one generated function, positions ranked."""
+    lhs = [(m.start(1), m.group(1)) for m in re.finditer(r"^\t\t(_\d+_\d+) := ", text, re.M)]
+    lhs_at = {a for a, _ in lhs}
+    body = [m.group(0) for m in re.finditer(r"\b_\d+_\d+\b", text) if m.start(0) not in lhs_at]
+
+    def key(v):
+        a, b = v[1:].split("_")
+        return (int(a), int(b))
+    rank = {v: i for i, v in enumerate(sorted(set(body) | {v for _, v in lhs}, key=key))}
+    return [rank[v] for _, v in lhs], [rank[v] for v in body]
+
+
 def split_functions(text):
     out = {}
     parts = re.split(r"^func (Flow\d+)\(", text, flags=re.M)
@@ -218,29 +231,34 @@ def observe(seed, tier):
     quick = tier == "quick"
     nflows = 72 if quick else 400
     flows, ntypes, r = progen.gen_flows(seed, nflows)
-    mod = common.make_gen_module("beh-%d-%s" % (seed, tier))
-    gdir = os.path.join(mod, "gen")
-    os.makedirs(gdir)
-    for name, text in progen.render_package(flows, ntypes).items():
-        open(os.path.join(gdir, name), "w").write(text)
-    rdir = os.path.join(mod, "cmd", "runner")
-    os.makedirs(rdir)
-    open(os.path.join(rdir, "main.go"), "w").write(progen.render_runner(flows, None, None))
     summary = {"flows": len(flows), "executions": 0, "hits": {}, "samples": [], "dist": {"scenario": {}, "tasks": {}, "features": {}},
-               "cff_ok": True, "build_ok": True, "module": mod}
+               "cff_ok": True, "build_ok": True}
 
     def hit(p, what, payload):
         lst = summary["hits"].setdefault(p, [])
         if len(lst) < 4:
             lst.append({"what": what, "payload": payload})
-    rc, out = common.run_cff(mod, "./gen")
-    summary["cff_output"] = out[-1500:]
-    if rc != 0 or "panic:" in out:
-        summary["cff_ok"] = False
-        hit("C13", "cff failed on a package of well-formed flows (exit %d): %s" % (rc, out.strip().split("\n")[-1][:200]),
-            {"output": out[-4000:], "module": mod})
-    # the output must type-check without the cff tag and contain no directive call
-    if summary["cff_ok"]:
+
+    def prepare(tag):
+        """write the package, run the real cff on it, type-check the output"""
+        mod = common.make_gen_module("beh-%d-%s%s" % (seed, tier, tag))
+        gdir = os.path.join(mod, "gen")
+        os.makedirs(gdir)
+        for name, text in progen.render_package(flows, ntypes).items():
+            open(os.path.join(gdir, name), "w").write(text)
+        rdir = os.path.join(mod, "cmd", "runner")
+        os.makedirs(rdir)
+        open(os.path.join(rdir, "main.go"), "w").write(progen.render_runner(flows, None, None))
+        summary["module"] = mod
+        summary["cff_ok"], summary["build_ok"] = True, True
+        rc, out = common.run_cff(mod, "./gen")
+        summary["cff_output"] = out[-1500:]
+        if rc != 0 or "panic:" in out:
+            summary["cff_ok"] = False
+            hit("C13", "cff failed on a package of well-formed flows (exit %d): %s" % (rc, out.strip().split("\n")[-1][:200]),
+                {"output": out[-4000:], "module": mod})
+            return mod, gdir
+        # the output must type-check without the cff tag and contain no directive call
         for fn in sorted(os.listdir(gdir)):
             if fn.endswith("_gen.go"):
                 txt = open(os.path.join(gdir, fn)).read()
@@ -249,13 +267,48 @@ def observe(seed, tier):
         rc, o, e = common.run(["go", "vet", "./gen"], cwd=mod, env=common.GOENV, check=False, timeout=900)
         if rc != 0:
             summary["build_ok"] = False
-            hit("C13", "the generated package does not type-check without the cff tag: %s" % (o + e).strip().split("\n")[-1][:200],
-                {"output": (o + e)[-4000:], "module": mod})
+            errs = [l for l in (o + e).split("\n") if re.search(r"_gen\.go:\d+", l)]
+            # which generated functions do not compile, and do they use locals named like generated identifiers?
+            culprits = []
+            for l in errs[:20]:
+                m = re.search(r"(flows\d+_gen\.go):(\d+)", l)
+                if m:
+                    lines = open(os.path.join(gdir, m.group(1))).read().split("\n")[:int(m.group(2))]
+                    fnm = [re.match(r"func (Flow\d+)\(", x).group(1) for x in lines if re.match(r"func (Flow\d+)\(", x)]
+                    if fnm:
+                        culprits.append(fnm[-1])
+            byname = {f.name(): f for f in flows}
+            msg = (errs[0].split(": ", 1)[-1] if errs else (o + e).strip().split("\n")[-1])[:200]
+            hit("C13", "the generated package does not type-check without the cff tag: %s" % msg,
+                {"output": (o + e)[-4000:], "module": mod, "functions": sorted(set(culprits))})
+            if culprits and all(byname[c].bare for c in culprits if c in byname):
+                c0 = culprits[0]
+                hit("C15", "generated code for %s, whose argument expressions name local variables called like identifiers the generated code declares, does not compile: %s" % (c0, msg),
+                    {"go_function": c0, "source": byname[c0].render(), "output": (o + e)[-3000:], "module": mod})
+        return mod, gdir
+
+    mod, gdir = prepare("")
+    if summary["cff_ok"] and not summary["build_ok"] and any(f.bare or f.clock for f in flows):
+        # keep the other properties decidable: retry with literal arguments only
+        for f in flows:
+            f.bare, f.clock = False, False
+        summary["plain_fallback"] = True
+        mod, gdir = prepare("-plain")
     gotext = {}
     if summary["cff_ok"]:
         for fn in sorted(os.listdir(gdir)):
             if fn.endswith("_gen.go"):
                 gotext.update(split_functions(open(os.path.join(gdir, fn)).read()))
+    if gotext:
+        names = sorted(gotext)
+        cases = [prologue_case(gotext[n]) for n in names]
+        outs = common.model_run("prologue", [" ".join(str(x) for x in body) for _, body in cases])
+        summary["prologues"] = len(cases)
+        for n, (assigned, body), out in zip(names, cases, outs):
+            want = [int(x) for x in out.split()]
+            if assigned != want:
+                hit("C15", "the prologue of %s assigns the hoisted expressions in order %s (ranks of source positions); sorted, duplicate-free order of the mentioned expressions is %s" % (n, assigned, want),
+                    {"go_function": n, "assigned": assigned, "model_prologue": want, "mentions": body, "module": mod})
     if summary["cff_ok"] and summary["build_ok"]:
         exe = os.path.join(mod, "runner.bin")
         common.run(["go", "build", "-o", exe, "./cmd/runner"], cwd=mod, env=common.GOENV, timeout=900)
@@ -301,10 +354,18 @@ def observe(seed, tier):
                         want[j] = sorted(d for d in ds.split(",") if d)
                 got = parse_job_graph(gotext.get(f.name(), ""), f)
                 summary["graphs"] = summary.get("graphs", 0) + 1
-                if got != want:
-                    for p in ("C02", "C01"):
-                        hit(p, "the Dependencies lists in the generated code differ from the job graph of the model: generated %s, model %s" % (got, want),
-                            {"flow": f.model_line(), "go_function": f.name(), "generated": got, "model": want, "module": mod})
+                gs = {j: sorted(set(d)) for j, d in got.items()}
+                ws = {j: sorted(set(d)) for j, d in want.items()}
+                if gs != ws:
+                    missing = {j: sorted(set(ws[j]) - set(gs.get(j, []))) for j in ws if set(ws[j]) - set(gs.get(j, [])) or j not in gs}
+                    if missing:
+                        # a job may then run before the job that assigns what it reads (Layer 0 allows that schedule)
+                        for p in ("C02", "C01"):
+                            hit(p, "the generated code omits dependencies the dataflow needs (job: missing providers) %s: the scheduler may run the job before its provider" % missing,
+                                {"flow": f.model_line(), "go_function": f.name(), "generated": got, "model": want, "module": mod})
+                    else:
+                        hit("GRAPH", "the Dependencies lists in the generated code have edges the model's job graph lacks: generated %s, model %s" % (gs, ws),
+                            {"flow": f.model_line(), "go_function": f.name(), "generated": got, "model": want})
             summary["executions"] += 1
             summary["dist"]["scenario"][run["label"]] = summary["dist"]["scenario"].get(run["label"], 0) + 1
             for p, msgs in compare(f, run, pred).items():
@@ -335,6 +396,7 @@ def apply(chk, pid):
     chk.cov.setdefault("correspondence", {})["generated_flows"] = {
         "kind": "programs generated from abstract flows are compiled by the real cff, built and executed under scenario tables; every execution is compared with FlowSemModel's prediction (extracted)",
         "flows": s["flows"], "executions": s["executions"], "job_graphs_compared_with_generated_code": s.get("graphs", 0),
+        "prologues_compared_with_model": s.get("prologues", 0),
         "input_distribution": s["dist"]}
     for smp in s["samples"][:2]:
         chk.sample(smp)
@@ -342,6 +404,9 @@ def apply(chk, pid):
         chk.distinct.add(("genexec", i))
     for h in s["hits"].get(pid, [])[:1]:
         chk.violate(h["what"], h["payload"])
+    if pid in ("C01", "C02"):
+        for h in s["hits"].get("GRAPH", [])[:1]:
+            chk.fail_no_input("correspondence job-graph(generated code) = jdeps(model) no longer holds: " + h["what"], {"correspondence": "job graph", "detail": h["payload"]})
     for h in s["hits"].get("MODEL", [])[:1]:
         chk.fail_no_input("the two Coq models of a Flow disagree with each other: " + h["what"], {"theorem": "FlowOpModel vs FlowSemModel (extracted)", "detail": h["payload"]})
     if pid != "C13" and not (s["cff_ok"] and s["build_ok"]):
